@@ -102,11 +102,73 @@ theorem client_live {c : Codec α} (hc : CodecOK c) {t : PType} {a : Acct} {v : 
   have : ¬ a.data.length < t.W := by omega
   simp [this, live_take hl, live_drop hl, hc.rt v hl.valid]
 
+/-- When the cache / lamports side of a cleanup succeeds, the cleanup IS the write-back. -/
+theorem cleanup_of_ok {c : Codec α} {t : PType} {k : Cleanup} (hk : CleanOK k) (b : BAcct α) :
+    cleanup c t k b = serializeBack c t b := by
+  cases k with
+  | dflt =>
+    simp only [cleanup, cleanupFull]
+    cases serializeBack c t b <;> rfl
+  | close r => exact absurd hk (by simp [CleanOK])
+  | rent op who drained =>
+    obtain ⟨hw, hd⟩ := hk
+    have h2 : rentTail op drained = .ok () := by simp [rentTail, hd]
+    simp only [cleanup, cleanupFull, if_false, hw, h2]
+    cases serializeBack c t b <;> rfl
+
+/-- A cleanup other than close that succeeds has performed exactly the write-back. -/
+theorem cleanup_ok_writeback {c : Codec α} {t : PType} {k : Cleanup} (hk : ∀ r, k ≠ .close r)
+    {b b' : BAcct α} (h : cleanup c t k b = .ok b') : serializeBack c t b = .ok b' := by
+  cases k with
+  | dflt =>
+    simp only [cleanup, cleanupFull] at h
+    cases hs : serializeBack c t b with
+    | error e => rw [hs] at h; cases h
+    | ok b1 => rw [hs] at h; exact h
+  | close r => exact absurd rfl (hk r)
+  | rent op who drained =>
+    by_cases h1 : who = Who.cachedMissing ∧ op ≠ RentOp.normalize
+    · simp [cleanup, cleanupFull, h1] at h
+    · cases hs : serializeBack c t b with
+      | error e => simp [cleanup, cleanupFull, h1, hs] at h
+      | ok b1 =>
+        by_cases h2 : who = Who.cachedMissing
+        · by_cases h3 : op = RentOp.normalize <;> simp [cleanup, cleanupFull, hs, h2, h3] at h
+        · cases hr : rentTail op drained with
+          | error e => simp [cleanup, cleanupFull, hs, h2, hr] at h
+          | ok u =>
+            cases u
+            simp only [cleanup, cleanupFull, hs, h2, hr, if_false] at h
+            exact h
+
+/-- The state any non-close cleanup leaves, even when it fails: either untouched or exactly the
+write-back's result. -/
+theorem cleanupFull_state {c : Codec α} {t : PType} {k : Cleanup} (hk : ∀ r, k ≠ .close r)
+    (b : BAcct α) :
+    (cleanupFull c t k b).1 = b ∨ serializeBack c t b = .ok (cleanupFull c t k b).1 := by
+  cases k with
+  | dflt =>
+    simp only [cleanupFull]
+    cases hs : serializeBack c t b with
+    | error e => exact Or.inl rfl
+    | ok b1 => exact Or.inr rfl
+  | close r => exact absurd rfl (hk r)
+  | rent op who drained =>
+    simp only [cleanupFull]
+    split
+    · exact Or.inl rfl
+    · cases hs : serializeBack c t b with
+      | error e => exact Or.inl rfl
+      | ok b1 =>
+        simp only
+        split <;> exact Or.inr rfl
+
 /-- One instruction maps a live account holding `v0` to a live account holding what the instruction
 left in the wrapper. -/
 theorem instr_live {c : Codec α} (hc : CodecOK c) {t : PType} {a : Acct} {v0 : α}
-    (hl : Live c t a v0) (ws : List α) (hs : StepOK c t a.orig (leaves v0 ws)) :
-    ∃ a', instr c t a ws = .ok a' ∧ Live c t a' (leaves v0 ws) := by
+    (hl : Live c t a v0) (ws : List α) (k : Cleanup) (hk : CleanOK k)
+    (hs : StepOK c t a.orig (leaves v0 ws)) :
+    ∃ a', instr c t a ws k = .ok a' ∧ Live c t a' (leaves v0 ws) := by
   have hlen := live_length hc hl
   have hfreeW : a.borrow.canWrite = true := by rw [hl.free]; rfl
   have hfreeR : a.borrow.canRead = true := by rw [hl.free]; rfl
@@ -118,7 +180,7 @@ theorem instr_live {c : Codec α} (hc : CodecOK c) {t : PType} {a : Acct} {v0 : 
   refine ⟨nextIx { a with data := a.data.take t.W ++ c.ser (leaves v0 ws) }, ?_, ?_⟩
   · unfold instr
     rw [decode_live hc hl]
-    simp only [hval, hsets, cleanup, hser]
+    simp only [hval, hsets, cleanup_of_ok hk, hser]
   · exact {
       writable := hl.writable
       owner := hl.owner
